@@ -374,6 +374,9 @@ static void mode_handshake(vf::Ctx& c)
 	std::string key;
 	for (int i = 0; i < 22; i++) key += b64[c.rng.below(64)];
 	key += "==";
+	// the server answers whatever key it is given: a quarter of the handshakes use other key lengths (1..200 characters, so that
+	// key + GUID crosses one, two and three 64-byte hash blocks, and ends exactly on a block boundary at 28, 92 and 156)
+	if (c.rng.chance(0.25)) { static const int L[] = {1, 19, 20, 27, 28, 29, 55, 56, 64, 91, 92, 93, 100, 128, 155, 156, 157, 200}; int n = c.rng.chance(0.6) ? L[c.rng.below(18)] : c.rng.range(1, 200); key.clear(); for (int i = 0; i < n; i++) key += b64[c.rng.below(64)]; c.count("handshake.keys_of_other_lengths"); }
 	auto spell = [&](std::string s) { int w = c.rng.below(3); for (auto& ch : s) ch = w == 1 ? (char)tolower(ch) : w == 2 ? (char)toupper(ch) : ch; return s; };
 	auto sep = [&]() { int w = c.rng.below(4); return std::string(w == 0 ? ":" : w == 1 ? ": " : w == 2 ? ":  " : ":\t"); };
 	std::vector<std::string> hs;
